@@ -217,4 +217,6 @@ def run(repo, tier):
         ('photutils.psf.gridded_models.GriddedPSFModel.origin', 'stmt', 'xyorigin = (np.array(self.data.shape) - 1) / 2',
          'ePSF origin = centre of the array, (n - 1) / 2 (half-integer for even sizes)'),
     ])
+    from .common import run_generic_pack
+    run_generic_pack(repo, res, PROP, MODS)
     return res
